@@ -171,15 +171,21 @@ Print Assumptions C19_checker_valid.
    whose SendBid model (model/PreconfBidder.v) takes ConstructSignedBid as an oracle; here that oracle is
    the signer model's construct_bid for an arbitrary hash function K and crypto library cr
    (Compose_bidder.signer_oracles), and the call values are the ones this API hands over
-   (Compose_bidder.args_of).  For every request accepted by the published rules whose three numbers are Go
-   int64 values: the request reaches SendBid exactly once, and whatever SendBid then does (any connected
-   peers, reply scripts, deadline) the bid it signed and offers carries the request's hashes joined in
-   order (they split back), its amount text, block number and decay window and nothing else; its digest
-   is the generic EIP-712 hash (model/Eip712.v part II, written from the EIP text) of those values, which
-   are well typed for the published schema (C03_bid applies: accepted amounts lie below 2^64, accepted
-   numbers in (0, 2^63)); its signature is the key signer's answer for that digest with v moved to 27/28;
-   and exactly this message is written once on every stream that opened, one stream per connected
-   provider.  Non-vacuity: Compose_bidder.ex_request_accepted, Compose_bidder.ex_bidder_path. *)
+   (Compose_bidder.args_of).  SendBid is taken in its operational model ([PreconfBidder.send_bid_op tr], C05: every
+   transport, every resolution of the final select, every deadline D including an already expired context).
+   For every request accepted by the published rules whose three numbers are Go int64 values (they are: the
+   message carries protobuf int64 fields, Rules_proofs.int64_of_wire_range / bidder_bid_ok_int64;
+   C19_accepted_wire_request_bid_is_eip712 below has no range premise): the request reaches SendBid exactly
+   once, and whatever SendBid then does (any connected peers, reply scripts, deadline) the bid it signed and
+   offers carries the request's hashes joined in order (they split back), its amount text, block number and
+   decay window and nothing else; its digest is the generic EIP-712 hash (model/Eip712.v part II, written from
+   the EIP text) of those values, which are well typed for the published schema (C03_bid applies: accepted
+   amounts lie below 2^64, accepted numbers in (0, 2^63)); its signature is the key signer's answer for that
+   digest with v moved to 27/28; there is one NewStream per connected provider and exactly this message is
+   handed to WriteMsg once on every stream that opened ([opens_stream_op tr D p]: the script does not make
+   NewStream fail and NewStream did not see an already expired context -- at D = 0 nothing is written on the
+   repository's transport, C19_accepted_bid_expired_context_writes_nothing).
+   Non-vacuity: Compose_bidder.ex_request_accepted, Compose_bidder.ex_bidder_path. *)
 From MevVerif Require model.Eip712 model.Signer model.PreconfBidder proofs.PreconfBidder_proofs proofs.Compose_bidder.
 Theorem C19_accepted_bid_is_eip712 :
   forall (K : bytes -> bytes) (cr : Signer.crypto) (r : request),
@@ -187,10 +193,10 @@ Theorem C19_accepted_bid_is_eip712 :
   (r_bn r <= int64_max)%Z -> (r_ds r <= int64_max)%Z -> (r_de r <= int64_max)%Z ->
   forall ans fail_at,
   exists f, calls (send_bid (Some r) ans fail_at) = [f] /\
-  forall view D run,
-    PreconfBidder.send_bid (Compose_bidder.signer_oracles K cr) (Compose_bidder.args_of f) view D
-      = PreconfBidder.SRun run ->
-    let s := PreconfBidder.r_sent run in
+  forall tr view D run,
+    PreconfBidder.send_bid_op tr (Compose_bidder.signer_oracles K cr) (Compose_bidder.args_of f) view D
+      = PreconfBidder.XRun run ->
+    let s := PreconfBidder.xr_sent run in
     PreconfBidder.b_tx s = join 44 (r_txs r) /\ split 44 (PreconfBidder.b_tx s) = r_txs r /\
     PreconfBidder.b_amt s = r_amount r /\ PreconfBidder.b_bn s = r_bn r /\
     PreconfBidder.b_ds s = r_ds r /\ PreconfBidder.b_de s = r_de r /\ PreconfBidder.b_unk s = [] /\
@@ -203,8 +209,8 @@ Theorem C19_accepted_bid_is_eip712 :
                            (Z.to_N (r_bn r)) (Z.to_N (r_ds r)) (Z.to_N (r_de r))) = true /\
     Signer.sign_normalised cr (PreconfBidder.b_dig s) = Ok (PreconfBidder.b_sig s) /\
     Forall2 (fun p ct => fst ct = PreconfBidder.p_addr p /\
-                         snd ct = if PreconfBidder_proofs.opens_stream p then [s] else [])
-            (PreconfBidder.get_peers PreconfBidder.TProvider view) (PreconfBidder.r_contacted run).
+                         snd ct = if PreconfBidder_proofs.opens_stream_op tr D p then [s] else [])
+            (PreconfBidder.get_peers PreconfBidder.TProvider view) (PreconfBidder.xr_contacted run).
 Proof. exact Compose_bidder.accepted_bid_is_eip712. Qed.
 Print Assumptions C19_accepted_bid_is_eip712.
 
@@ -244,3 +250,29 @@ Theorem C19_accepted_passes_provider_rules :
     (ProviderSvc.to_engine (PreconfProvider_signed.of_wire (NoPanic_proofs.conv_bid (PreconfBidder.r_sent rn)))) = true.
 Proof. exact Compose_provider.provider_format_ok. Qed.
 Print Assumptions C19_accepted_passes_provider_rules.
+
+(* C19 o C05 (C05_expired).  The same call with a context that had already expired: no message is handed to any
+   stream and nothing is delivered. *)
+Theorem C19_accepted_bid_expired_context_writes_nothing :
+  forall (K : bytes -> bytes) (cr : Signer.crypto) (r : request) view run,
+  PreconfBidder.send_bid_op PreconfBidder.ctx_transport (Compose_bidder.signer_oracles K cr)
+    (Compose_bidder.args_of (forward r)) view 0 = PreconfBidder.XRun run ->
+  (forall ad ws, In (ad, ws) (PreconfBidder.xr_contacted run) -> ws = []) /\ PreconfBidder.xr_delivered run = [].
+Proof. exact Compose_bidder.accepted_bid_expired_context_writes_nothing. Qed.
+Print Assumptions C19_accepted_bid_expired_context_writes_nothing.
+
+(* C19 o C05 o C03 for a request as decoded from the wire: the three numbers are [int64_of_wire u] of the 64-bit
+   values on the wire, so no range premise is left; acceptance means 0 < u < 2^63 for each. *)
+Theorem C19_accepted_wire_request_bid_is_eip712 :
+  forall (K : bytes -> bytes) (cr : Signer.crypto) txs amount ubn uds ude,
+  ubn < uint64_bound -> uds < uint64_bound -> ude < uint64_bound ->
+  let r := {| r_txs := txs; r_amount := amount; r_bn := int64_of_wire ubn;
+              r_ds := int64_of_wire uds; r_de := int64_of_wire ude |} in
+  bidder_bid_ok txs amount (int64_of_wire ubn) (int64_of_wire uds) (int64_of_wire ude) = true ->
+  forall tr view D run,
+    PreconfBidder.send_bid_op tr (Compose_bidder.signer_oracles K cr) (Compose_bidder.args_of (forward r)) view D
+      = PreconfBidder.XRun run ->
+    Compose_bidder.sent_is_request_bid K cr r (PreconfBidder.xr_sent run) /\
+    (0 < ubn < 9223372036854775808 /\ 0 < uds < 9223372036854775808 /\ 0 < ude < 9223372036854775808).
+Proof. exact Compose_bidder.accepted_wire_request_bid_is_eip712. Qed.
+Print Assumptions C19_accepted_wire_request_bid_is_eip712.
